@@ -115,6 +115,8 @@ ExpectedW ==
 ConfigInv == l = 2 =>
   /\ Cfg.strategy = ExpectedStrategy
   /\ WD!IsPermutationOf(Cfg.elems, Selected)                        \* every selected cell exactly once in the work list
+  \* a coloured distribution of a non-empty selection has at least one colour (offset table with >= 2 entries)
+  /\ (ExpectedStrategy = "colored" /\ Cfg.maxw > 0 /\ Cfg.N > 0 => Len(Cfg.ce) >= 2)
   /\ Cfg.W = ExpectedW
   /\ (Cfg.N > 0 => Cfg.nfences = Cfg.W + 2)
   /\ (ExpectedStrategy = "layered" /\ Cfg.maxw > 0 /\ Cfg.N > 0 =>
